@@ -28,6 +28,10 @@ CLAIMS.update({
     "C20": ("SCCs of the resolved call graph, edge classification (tree / name-resolved link / text) from all field stores, guard recognition on dominating facts", "Every recursive component of the call graph is enumerated; each recursive call is classified by the object it descends through, and every cycle that follows a name-resolved link (link_obj, inherit_var, ancestor_obj, workspace lookups, included files) must pass a guard: visited collection (G1), generation stamp (G2), depth counter (G3), absorbed RecursionError (G4), link field acyclic by construction - every store dominated by a chain walk (G5), one-shot flag (G6). Link-following loops must be bounded; the parent/children graph may only receive freshly built objects or ancestry-tested grafts; the recursion limit is applied before indexing. Not decided: time bounds, non-recursive blow-ups, recursion hidden behind unresolved dynamic calls."),
 })
 
+CLAIMS.update({
+    "C18": ("regex syntax-tree queries (anchoring, finite language) + dominating-condition check at the collection point + call order", "The suffix pattern template is end-anchored per alternative, its default alternative is exactly the finite documented suffix list in both letter cases, user suffixes pass re.escape on both construction paths, the pattern is applied with search() to bare directory entries; every append to the start-up file list is dominated by all four filters; directory discovery guards, root-relative glob expansion, directories-only, subtraction after expansion, and the initialize call order are checked. Not decided: the resulting file set on a concrete directory tree."),
+})
+
 NA_REASON = "check under construction in this round (rules designed in DESIGN.md section 3, not yet implemented); will move to checks once its rules run"
 
 
